@@ -100,7 +100,15 @@ inductive Val
   | ns (l : List Nat) | str (s : String) | num (n : Num) | bool (b : Bool) | rtf (evs : List REv)
 deriving Inhabited
 
+/-- `xsl:key` declaration (XSLT §12.2) -/
+structure KeyDecl where
+  name : String
+  pats : List Expr
+  use : Expr
+deriving Inhabited
+
 structure Ctx where
+  keys : List KeyDecl := []         -- the stylesheet's key declarations (static)
   node : Nat := 0
   pos : Nat := 1
   size : Nat := 1
@@ -108,6 +116,8 @@ structure Ctx where
   vars : List (String × Val) := []
   passed : List (String × Val) := []
   mode : Option String := none
+  /-- import precedence of the current template rule (§5.6); `none` = no current template rule (inside xsl:for-each) -/
+  curPrec : Option Nat := none
 deriving Inhabited
 
 /-! ### conversions (XPath §4.2–4.4) -/
@@ -345,7 +355,7 @@ def eval (d : Doc) : Nat → Expr → Ctx → Option Val
         else some (.bool (compareVals d op x y))
     | .fn name args => do
       let vs ← evalArgs d f args c
-      evalFn d name vs c
+      if name = "key" then evalKey d f vs c else evalFn d name vs c
     | .step base ax t preds => do
       let b ← eval d f base c
       match b with
@@ -363,6 +373,34 @@ def eval (d : Doc) : Nat → Expr → Ctx → Option Val
         let kept ← applyPreds d f [p] false l c
         some (.ns kept)
       | _ => none
+
+/-- `key(name, value)` (§12.2): the nodes of the document that match the key's pattern and for which the
+`use` expression, evaluated at the node, yields (a node with) one of the requested string values -/
+def evalKey (d : Doc) : Nat → List Val → Ctx → Option Val
+  | 0, _, _ => none
+  | f+1, vs, c =>
+    match vs with
+    | [nameV, valV] =>
+      match c.keys.find? (·.name = toStr d nameV) with
+      | none => none
+      | some decl =>
+        let wanted : List String := match valV with
+          | .ns l => l.map d.stringValue
+          | v => [toStr d v]
+        do
+        let hits ← d.ids.filterM fun n => do
+          let isMatch := decl.pats.any fun p => (n :: d.ancestors n).any fun a =>
+            match eval d f p { keys := c.keys, node := a, cur := a } with
+            | some (.ns l) => l.contains n
+            | _ => false
+          if !isMatch then pure false else do
+            let u ← eval d f decl.use { keys := c.keys, node := n, cur := n }
+            let have_ : List String := match u with
+              | .ns l => l.map d.stringValue
+              | v => [toStr d v]
+            pure (have_.any fun x => wanted.contains x)
+        some (.ns hits)
+    | _ => none
 
 def evalArgs (d : Doc) : Nat → List Expr → Ctx → Option (List Val)
   | 0, _, _ => none
@@ -470,6 +508,10 @@ inductive Instr
   /-- `xsl:use-attribute-sets` / `use-attribute-sets` of the enclosing element-creating instruction
   (kept as the first item of its body) -/
   | useSets (names : List String)
+  /-- `xsl:number` (§7.7): `value="…"`, or `level` = single | multiple | any with an optional `count` pattern (no
+`from`); one format token with optional punctuation around it -/
+  | number (value : Option Expr) (level : String) (count : List Expr) (format : String)
+  | applyImports
 deriving Inhabited
 
 structure Template where
@@ -478,6 +520,7 @@ structure Template where
   mode : Option String := none
   prio : Option Int := none       -- explicit priority, in halves
   body : List Instr := []
+  prec : Nat := 0                 -- import precedence of the stylesheet module the rule is in (§2.6.2)
 deriving Inhabited
 
 structure AttrSet where
@@ -490,6 +533,9 @@ structure Stylesheet where
   templates : List Template := []
   globals : List Instr := []      -- top-level xsl:variable / xsl:param, in document order
   attrSets : List AttrSet := []
+  keys : List KeyDecl := []
+  /-- `xsl:strip-space elements="…"` name tests ("*" or element names); no xsl:preserve-space in the subset -/
+  stripSpace : List String := []
 deriving Inhabited
 
 /-! ### result-tree construction (XSLT §7.1.3, §7.2): flat events, then `normalize` -/
@@ -555,20 +601,52 @@ def matchesPat (d : Doc) (fuel : Nat) (p : Expr) (n : Nat) : Bool :=
     | _ => false
 
 /-- §5.5: highest priority wins; among equals the last in the stylesheet (the permitted recovery) -/
-def chooseTemplate (ss : Stylesheet) (d : Doc) (fuel : Nat) (n : Nat) (mode : Option String) :
-    Option Template :=
-  let cands : List (Int × Nat × Template) :=
+def chooseTemplate (ss : Stylesheet) (d : Doc) (fuel : Nat) (n : Nat) (mode : Option String)
+    (below : Option Nat := none) : Option Template :=
+  -- `below = some p`: only rules of import precedence lower than `p` (xsl:apply-imports, §5.6)
+  let cands : List (Nat × Int × Nat × Template) :=
     (ss.templates.zipIdx).flatMap fun (t, idx) =>
-      if t.mode ≠ mode then [] else
-      (t.pats.filter fun p => matchesPat d fuel p n).map fun p => (t.prio.getD (defaultPrio p), idx, t)
-  let best := cands.foldl (fun (acc : Option (Int × Nat × Template)) x =>
+      if t.mode ≠ mode ∨ (match below with | some p => decide (t.prec ≥ p) | none => false) = true then [] else
+      (t.pats.filter fun p => matchesPat d fuel p n).map fun p => (t.prec, t.prio.getD (defaultPrio p), idx, t)
+  -- highest import precedence, then highest priority, then last in the stylesheet
+  let best := cands.foldl (fun (acc : Option (Nat × Int × Nat × Template)) x =>
     match acc with
     | none => some x
-    | some b => if x.1 > b.1 ∨ (x.1 = b.1 ∧ x.2.1 ≥ b.2.1) then some x else some b) none
-  best.map (·.2.2)
+    | some b =>
+      if x.1 > b.1 ∨ (x.1 = b.1 ∧ (x.2.1 > b.2.1 ∨ (x.2.1 = b.2.1 ∧ x.2.2.1 ≥ b.2.2.1))) then some x else some b) none
+  best.map (·.2.2.2)
+
+/-- §7.7: does node `n` count for an `xsl:number` instantiated at node `cur`?  (default: same node type and,
+where the type has names, same name) -/
+def countsFor (d : Doc) (fuel : Nat) (count : List Expr) (cur n : Nat) : Bool :=
+  if count.isEmpty then
+    decide ((d.node n).kind = (d.node cur).kind) &&
+      (match (d.node cur).kind with
+       | .elem | .attr | .pi => decide ((d.node n).name = (d.node cur).name)
+       | _ => true)
+  else count.any fun p => matchesPat d fuel p n
+
+/-- the list of numbers `xsl:number` produces without `value` (no `from`) -/
+def numberList (d : Doc) (fuel : Nat) (level : String) (count : List Expr) (cur : Nat) : List Nat :=
+  let ok := countsFor d fuel count cur
+  let sibNo (n : Nat) : Nat := 1 + ((d.precedingSiblings n).filter ok).length
+  if level = "any" then
+    let anchor := if d.isAttr cur then (d.node cur).parent else cur
+    let before := d.ids.filter fun n => n ≤ anchor ∧ !d.isAttr n
+    let cnt := ((if d.isAttr cur then before ++ [cur] else before).filter ok).length
+    if cnt = 0 then [] else [cnt]
+  else if level = "multiple" then
+    (((cur :: d.ancestors cur).filter ok).reverse).map sibNo
+  else
+    match (cur :: d.ancestors cur).find? ok with
+    | some n => [sibNo n]
+    | none => []
 
 def findNamed (ss : Stylesheet) (name : String) : Option Template :=
-  ss.templates.reverse.find? fun t => t.name = some name
+  (ss.templates.filter fun t => t.name = some name).foldl (fun (acc : Option Template) t =>
+    match acc with
+    | none => some t
+    | some b => if t.prec ≥ b.prec then some t else some b) none
 
 /-! ### sorting (XSLT §10) -/
 
@@ -605,11 +683,9 @@ def sortNodes (d : Doc) (fuel : Nat) (keys : List SortKey) (nodes : List Nat) (c
       pure (i, ks)
     some ((keyed.mergeSort fun a b => lexLe keys a.2 b.2).map (·.1))
 
-def evalAvt (d : Doc) (fuel : Nat) (parts : List AvtPart) (c : Ctx) (overwrite : Bool := false) : Option String :=
+def evalAvt (d : Doc) (fuel : Nat) (parts : List AvtPart) (c : Ctx) : Option String :=
   parts.foldlM (fun acc p => match p with
     | .lit s => some (acc ++ s)
-    | .expr (.lit s) => some (if overwrite then s else acc ++ s)
-    | .expr (.num n) => some (if overwrite then toString n else acc ++ toString n)
     | .expr e => (eval d fuel e c).map fun v => acc ++ toStr d v) ""
 
 /-- §7.4: "--" or a trailing "-" in a comment is an error; the recovery is to insert a space -/
@@ -635,26 +711,62 @@ def deepCopy (d : Doc) : Nat → Nat → List REv
     | .comment => [.comment n.value]
     | .pi => [.pi n.name n.value]
 
+/-! ### number formatting (XSLT §7.7.1) for one format token -/
+
+def alphaDigits (upper : Bool) : Nat → Nat → List Char
+  | 0, _ => []
+  | _+1, 0 => []
+  | f+1, n + 1 => alphaDigits upper f (n / 26) ++ [Char.ofNat ((if upper then 65 else 97) + n % 26)]
+
+def romanTable : List (Nat × String) :=
+  [(1000, "m"), (900, "cm"), (500, "d"), (400, "cd"), (100, "c"), (90, "xc"), (50, "l"), (40, "xl"),
+   (10, "x"), (9, "ix"), (5, "v"), (4, "iv"), (1, "i")]
+
+def romanAux : Nat → Nat → List (Nat × String) → String
+  | 0, _, _ => ""
+  | _, _, [] => ""
+  | f+1, n, (v, s) :: rest => if n ≥ v then s ++ romanAux f (n - v) ((v, s) :: rest) else romanAux f n rest
+
+/-- `token` = the alphanumeric format token: "1", "01", "001", "a", "A", "i", "I" -/
+def formatToken (token : String) (n : Nat) : String :=
+  if token = "a" then String.ofList (alphaDigits false (n + 1) n)
+  else if token = "A" then String.ofList (alphaDigits true (n + 1) n)
+  else if token = "i" then romanAux (n + 20) n romanTable
+  else if token = "I" then (romanAux (n + 20) n romanTable).toUpper
+  else
+    let ds := toString n
+    String.ofList (List.replicate (token.length - ds.length) '0') ++ ds
+
+def isAlnum (c : Char) : Bool := c.isAlphanum
+
+/-- prefix punctuation, token, suffix punctuation of a one-token format string; a list of numbers is formatted
+with that token for each and "." between them (§7.7.1: last token / default separator are reused); an empty list
+gives the empty string -/
+def formatNumbers (format : String) (ns : List Nat) : String :=
+  if ns.isEmpty then "" else
+  let cs := format.toList
+  let pre := cs.takeWhile (fun c => !isAlnum c)
+  let rest := cs.dropWhile (fun c => !isAlnum c)
+  let tok := rest.takeWhile isAlnum
+  let suf := rest.dropWhile isAlnum
+  let t := if tok.isEmpty then "1" else String.ofList tok
+  String.ofList pre ++ ".".intercalate (ns.map (formatToken t)) ++ String.ofList suf
+
+def formatNumber (format : String) (n : Nat) : String := formatNumbers format [n]
+
 /-! ### instantiation (XSLT §5, §7, §9, §11)
 
 The interpreter takes a `Quirks` record.  `Quirks.spec` (everything off, `finish := normalize`) *is the
-specification*.  The other settings reproduce, one switch each, behaviours of the real engine that were
-found to deviate from the Recommendation (design/C01.md, "findings"); the check uses them only to
-*classify* a disagreement (a mismatch that a switch explains exactly is that finding, anything else is a
-new violation). -/
+specification*.  The `paramLeak` switch reproduces the one behaviour of the real engine found to deviate from the
+Recommendation that is not yet repaired in /repo (design/C01.md, finding F4); the check uses it only to
+*classify* a disagreement (a mismatch the switch explains exactly is that finding, anything else is a new
+violation).  The switches for the repaired findings (root position, namespace-attribute leak, copy-of of an
+empty string, AVT literal) were removed once /repo had the fixes: such a deviation is now a plain violation. -/
 
 structure Quirks where
-  /-- position()/last() are 0 while the root node is processed (no initial current node list) -/
-  rootPos0 : Bool := false
-  /-- xsl:attribute with a namespace attribute is added without checking that an element is pending -/
-  nsAttrLeak : Bool := false
-  /-- xsl:copy-of of an empty string still sends a (zero-length) characters event -/
-  copyOfEmptyFlush : Bool := false
-  /-- a with-param activated by one template stays visible (as a variable) to later templates of the same apply-templates -/
+  /-- a with-param activated by one template stays visible (as a variable) to later templates of the same
+  apply-templates (`VariablesStack::findEntry` activates the passed entry in place) -/
   paramLeak : Bool := false
-  /-- inside an attribute value template an expression that is a string or number literal overwrites
-  what the template has produced so far instead of being appended -/
-  avtLiteralOverwrite : Bool := false
   /-- how an event sequence becomes a result tree -/
   finish : List REv → List REv := normalize
 
@@ -725,25 +837,46 @@ def execOne (q : Quirks) (ss : Stylesheet) (d : Doc) (genv : List (String × Val
         | .useSets ns :: rest => (ns, rest)
         | _ => ([], body)
       let fromSets ← useAttrSets q ss d genv f sets c
-      let as ← attrs.mapM fun (an, parts) => (evalAvt d f parts c q.avtLiteralOverwrite).map fun v => REv.attr an v
+      let as ← attrs.mapM fun (an, parts) => (evalAvt d f parts c).map fun v => REv.attr an v
       let b ← execSeq q ss d genv f body' c0
       some ([.start name] ++ fromSets ++ as ++ b ++ [.stop name])
+    | .number value level count format =>
+      match value with
+      | some e => do
+        let v ← eval d f e c
+        match toNum d v with
+        | .int i => if i ≥ 1 then some [.text (formatNumber format i.toNat)] else none
+        | .nan => none
+      | none =>
+        let s := formatNumbers format (numberList d f level count c.node)
+        some (if s.isEmpty then [] else [.text s])
+    | .applyImports =>
+      match c.curPrec with
+      | none => none
+      | some p =>
+        match chooseTemplate ss d f c.node c.mode (some p) with
+        | some t => execSeq q ss d genv f t.body { c with vars := genv, passed := [], curPrec := some t.prec }
+        | none =>
+          match (d.node c.node).kind with
+          | .root | .elem => applyNodes q ss d genv f (d.children c.node) 1 (d.children c.node).length c.mode [] []
+          | .text | .attr => some [.text (d.node c.node).value]
+          | _ => some []
     | .useSets names =>
       -- on xsl:element / xsl:copy; on xsl:copy only when the current node is an element
       useAttrSets q ss d genv f names c
     | .element nameAvt body => do
-      let name ← evalAvt d f nameAvt c q.avtLiteralOverwrite
+      let name ← evalAvt d f nameAvt c
       let b ← execSeq q ss d genv f body c0
       some ([.start name] ++ b ++ [.stop name])
     | .attribute nameAvt nsEmpty body => do
-      let name ← evalAvt d f nameAvt c q.avtLiteralOverwrite
+      let name ← evalAvt d f nameAvt c
       let b ← execSeq q ss d genv f body c0
-      some [if nsEmpty ∧ q.nsAttrLeak then .attrU name (rtfString b) else .attr name (rtfString b)]
+      some [.attr name (rtfString b)]
     | .comment body => do
       let b ← execSeq q ss d genv f body c0
       some [.comment (fixComment (rtfString b))]
     | .pi nameAvt body => do
-      let name ← evalAvt d f nameAvt c q.avtLiteralOverwrite
+      let name ← evalAvt d f nameAvt c
       let b ← execSeq q ss d genv f body c0
       some [.pi name (rtfString b)]
     | .copy body =>
@@ -766,7 +899,7 @@ def execOne (q : Quirks) (ss : Stylesheet) (d : Doc) (genv : List (String × Val
       | .rtf evs => some evs
       | _ =>
         let s := toStr d v
-        some (if s.isEmpty ∧ !q.copyOfEmptyFlush then [] else [.text s])
+        some (if s.isEmpty then [] else [.text s])
     | .applyTemplates sel mode sorts params => do
       let nodes ← match sel with
         | none => some (d.children c.node)
@@ -823,7 +956,7 @@ def forNodes (q : Quirks) (ss : Stylesheet) (d : Doc) (genv : List (String × Va
   | 0, _, _, _, _, _ => none
   | _+1, [], _, _, _, _ => some []
   | f+1, i :: rest, k, n, body, c => do
-    let a ← execSeq q ss d genv f body { c with node := i, cur := i, pos := k, size := n }
+    let a ← execSeq q ss d genv f body { c with node := i, cur := i, pos := k, size := n, curPrec := none }
     let b ← forNodes q ss d genv f rest (k + 1) n body c
     some (a ++ b)
 
@@ -838,7 +971,8 @@ def applyNodes (q : Quirks) (ss : Stylesheet) (d : Doc) (genv : List (String × 
     | some t => do
       let leaked := if q.paramLeak then passed.filter (fun p => act.contains p.1) else []
       let a ← execSeq q ss d genv f t.body
-          { node := i, cur := i, pos := k, size := n, vars := leaked ++ genv, passed := passed, mode := mode }
+          { keys := ss.keys, node := i, cur := i, pos := k, size := n, vars := leaked ++ genv, passed := passed, mode := mode,
+            curPrec := some t.prec }
       let act' := act ++ (declaredParams t.body).filter (fun x => (passed.lookup x).isSome)
       let b ← applyNodes q ss d genv f rest (k + 1) n mode passed act'
       some (a ++ b)
@@ -859,15 +993,32 @@ def globalsEnv (q : Quirks) (ss : Stylesheet) (d : Doc) : Nat → List Instr →
   | f+1, g :: gs, env =>
     match g with
     | .variable x sel body | .param x sel body => do
-      let v ← varValue q ss d env f sel body { node := 0, vars := env }
+      let v ← varValue q ss d env f sel body { keys := ss.keys, node := 0, vars := env }
       globalsEnv q ss d f gs ((x, v) :: env)
     | _ => none
 
+/-! ### whitespace stripping (XSLT §3.4) -/
+
+def isWsOnly (s : String) : Bool := !s.isEmpty && s.toList.all isWs
+
+/-- is node `i` a whitespace-only text node whose parent element is named by the strip list? -/
+def stripped (names : List String) (d : Doc) (i : Nat) : Bool :=
+  let n := d.node i
+  let p := d.node n.parent
+  decide (n.kind = .text) && isWsOnly n.value && decide (p.kind = .elem) && (names.contains "*" || names.contains p.name)
+
+/-- the source tree after stripping: the listed nodes are removed, the others keep their order -/
+def stripDoc (names : List String) (d : Doc) : Doc :=
+  if names.isEmpty then d else
+  let keep := d.ids.filter fun i => !stripped names d i
+  let newId (i : Nat) : Nat := (keep.filter (· < i)).length
+  { nodes := (keep.map fun i => { d.node i with parent := newId (d.node i).parent }).toArray }
+
 /-- §5.1: process a list containing just the root node, with the empty mode -/
-def transformWith (q : Quirks) (ss : Stylesheet) (d : Doc) (fuel : Nat) : Option (List REv) := do
+def transformWith (q : Quirks) (ss : Stylesheet) (d0 : Doc) (fuel : Nat) : Option (List REv) := do
+  let d := stripDoc ss.stripSpace d0
   let genv ← globalsEnv q ss d fuel ss.globals []
-  let n := if q.rootPos0 then 0 else 1
-  let evs ← applyNodes q ss d genv fuel [0] n n none [] []
+  let evs ← applyNodes q ss d genv fuel [0] 1 1 none [] []
   some (q.finish evs)
 
 /-- **the specification** -/
